@@ -49,7 +49,11 @@ type estCase struct {
 
 func genEst(t *rapid.T) estCase {
 	var c estCase
-	c.Rows, c.Tier = refdist.GenRows(t, 2, 8, pbt.Scale(60, 300), -1)
+	if rapid.IntRange(0, 99).Draw(t, "many-sequences") == 57 {
+		c.Rows, c.Tier = refdist.GenRows(t, 46, 80, 12, -1) // more than 1024 pairs, short alignments
+	} else {
+		c.Rows, c.Tier = refdist.GenRows(t, 2, 8, pbt.Scale(60, 300), -1)
+	}
 	c.Opt = refdist.GenOptions(t, len(c.Rows), len(c.Rows[0]), true, true)
 	c.ViaName = rapid.Bool().Draw(t, "via-name")
 	c.Threads = rapid.IntRange(1, 3).Draw(t, "threads")
@@ -187,6 +191,9 @@ func checkEst(c estCase) (o pbt.Outcome, err error) {
 	classify(&o, c.Opt, c.Tier, ref)
 	if refdist.HasLower(c.Rows) {
 		o.Class("lower-case residues")
+	}
+	if len(c.Rows) >= 46 {
+		o.Class("46-80 sequences (> 1024 pairs)")
 	}
 	if v.Substitute > 0 {
 		o.Class("undefined-reported-as-2max")
